@@ -369,7 +369,12 @@ def finish(ctx, lean, extra_trusted=(), open_clauses=(), rule="", assumptions=()
     ev = {"property_id": prop, "tier": ctx.tier, "seed": ctx.seed, "level": "proof", "coverage": cov,
           "assumptions": list(assumptions), "wall_s": round(time.time() - ctx.t0, 1), "violations": violations}
     (VERIF / "evidence").mkdir(exist_ok=True)
-    (VERIF / "evidence" / f"{prop}.json").write_text(json.dumps(ev, indent=1, default=str))
+    if REPO == Path("/repo"):
+        (VERIF / "evidence" / f"{prop}.json").write_text(json.dumps(ev, indent=1, default=str))
+    else:
+        # a run against a scratch tree (mutant testing) must not overwrite the evidence of /repo
+        (VERIF / "evidence" / "replay").mkdir(exist_ok=True)
+        (VERIF / "evidence" / "replay" / f"scratch-{prop}.json").write_text(json.dumps(ev, indent=1, default=str))
     for l in lines:
         print(l)
     print(f"[{prop}] tier={ctx.tier} seed={ctx.seed} theorems={lean['discharged']}/{lean['obligations']} "
